@@ -232,7 +232,7 @@ def run(ctx):
         vmd_trace = None
     if bench.traced and vmd_trace:
         trounds = pick_rounds(scens, rng, 10 if quick else 80, 2 if quick else 10, 3)
-        vmd_trace.validate(ctx, bench, "C17", trounds, findings, stats, traces, replay_rounds)
+        vmd_trace.validate(ctx, bench, "C17", trounds, findings, stats, traces, yield_seed=ctx.seed + 3)
     else:
         ctx.assumptions.append("H4 session events not compiled into this tree: no trace validation")
 
